@@ -1699,6 +1699,9 @@ def _divisions_from_statistics(aggregated_stats, index_name):
     if not sorted_minmax.is_monotonic_increasing:
         return tuple([None] * (len(aggregated_stats) + 1)), None
     for file_min, file_max in sorted_minmax:
+        if last_max is not None and file_min < last_max:
+            # files with overlapping index ranges cannot be described by divisions
+            return tuple([None] * (len(aggregated_stats) + 1)), None
         divisions.append(file_min)
         last_max = file_max
     divisions.append(last_max)
